@@ -2,7 +2,6 @@ package traefikoidc_test
 
 import "testing"
 
-func familyHandler(t *testing.T)   { t.Fatal("not built") }
 func familySession(t *testing.T)   { t.Fatal("not built") }
 func familyDiscovery(t *testing.T) { t.Fatal("not built") }
 func familySched(t *testing.T)     { t.Fatal("not built") }
